@@ -202,6 +202,12 @@ static void sec_special(void)
             rv &= ctr_encrypt((Cipher)c, &o, sbuf_out + pos, sbuf_in + pos, 150); pos += 150;
             rv += 2 * ctr_set_counter((Cipher)c, &o, KEYS[0], (unsigned)bs + 1) + 4 * ctr_set_tweak((Cipher)c, &o, KEYS[0], c == CK_MANTIS ? 7u : 0u) + 8 * ctr_encrypt((Cipher)c, &o, NULL, sbuf_in, 1);
             rv &= ctr_encrypt((Cipher)c, &o, sbuf_out + pos, sbuf_in + pos, 21); pos += 21;
+            /* the value the object already has, set again in the middle of a block: the tweak, then the key */
+            rv &= ctr_encrypt((Cipher)c, &o, sbuf_out + pos, sbuf_in + pos, 3); pos += 3;       /* 174 bytes since the last set_counter: inside a block of either size */
+            rv &= ctr_set_tweak((Cipher)c, &o, NULL, (unsigned)bs);
+            rv &= ctr_encrypt((Cipher)c, &o, sbuf_out + pos, sbuf_in + pos, 11); pos += 11;
+            if (c == CK_MANTIS) rv &= ctr_set_key((Cipher)c, &o, KEYS[kc], 16, 7); else rv &= ctr_set_tweaked_key((Cipher)c, &o, KEYS[kc], (unsigned)bs * 2);
+            rv &= ctr_encrypt((Cipher)c, &o, sbuf_out + pos, sbuf_in + pos, 9); pos += 9;
             ctr_cleanup((Cipher)c, &o);
             rv += 16 * ctr_encrypt((Cipher)c, &o, sbuf_out + pos, sbuf_in + pos, 5);
             out_digest(c == 0 ? "S3-skinny128-ctr-special-forms" : (c == 1 ? "S3-skinny64-ctr-special-forms" : "S3-mantis-ctr-special-forms"), sbuf_out, pos);
